@@ -964,7 +964,17 @@ func checkPatcherDiscipline(e *Env, p *load.Program) {
 			if ex, isEx := v.(*ssa.Extract); isEx {
 				call, okc = ex.Tuple.(*ssa.Call)
 			}
-			if !okc || flow.Callee(call) == nil {
+			// a range-checked narrowing helper (`shortJumpOffset(n) (uint8, error)`: uint8(n) behind 0 <= n <= 255) is looked
+			// through: the skip is its argument
+			if okc && narrowingHelper(flow.Callee(call)) && len(call.Call.Args) == 1 {
+				inner := flow.StripConv(call.Call.Args[0])
+				if c2, ok := inner.(*ssa.Call); ok {
+					call = c2
+				} else if ex2, ok := inner.(*ssa.Extract); ok {
+					call, okc = ex2.Tuple.(*ssa.Call)
+				}
+			}
+			if !okc || call == nil || flow.Callee(call) == nil {
 				r.Bad("E2.final", key, p.Pos(st.Pos()), "the skip does not come from a skip computation")
 				continue
 			}
@@ -1019,7 +1029,11 @@ func checkPatcherDiscipline(e *Env, p *load.Program) {
 		okInit := false
 		for _, ref := range *jumpInst.Referrers() {
 			if st, ok := ref.(*ssa.Store); ok && st.Addr == ssa.Value(jumpInst) {
-				if ta, ok := st.Val.(*ssa.TypeAssert); ok {
+				ta, ok := st.Val.(*ssa.TypeAssert)
+				if ex, isEx := st.Val.(*ssa.Extract); isEx && ex.Index == 0 {
+					ta, ok = ex.Tuple.(*ssa.TypeAssert) // the checked form `x, ok := v.(T)`
+				}
+				if ok && ta != nil {
 					o := res.Of(ta.X, nil, ta)
 					okInit = o.Kind == origin.KElem && strings.HasSuffix(o.Args[0].String(), ".instructions") && strings.HasSuffix(o.Args[1].String(), ".index")
 				}
@@ -1838,4 +1852,43 @@ func argsOfParam(p *load.Program, v ssa.Value, depth int) []argAt {
 		}
 	}
 	return out
+}
+
+// narrowingHelper: func(n int) (uint8, error) (or a single uint8 result) whose every success return yields the parameter
+// converted, behind a range check that implies 0 <= n <= 255.
+func narrowingHelper(h *ssa.Function) bool {
+	if h == nil || len(h.Blocks) == 0 || len(h.Params) != 1 || h.Signature.Results().Len() < 1 || h.Signature.Results().Len() > 2 {
+		return false
+	}
+	bt, ok := h.Signature.Results().At(0).Type().Underlying().(*types.Basic)
+	if !ok || bt.Kind() != types.Uint8 {
+		return false
+	}
+	n := 0
+	for _, ret := range flow.Returns(h) {
+		rs := flow.RetResults(ret)
+		if len(rs) == 2 && flow.KnownNonNilError(rs[1], ret.Block()) {
+			continue
+		}
+		cv, ok := rs[0].(*ssa.Convert)
+		if !ok || flow.StripConv(cv.X) != ssa.Value(h.Params[0]) {
+			return false
+		}
+		lo, hi := false, false
+		for _, cd := range flow.DomConds(ret.Block()) {
+			if pr, ok := flow.AsIntPred(cd.V, cd.Pol); ok && flow.StripConv(pr.X) == ssa.Value(h.Params[0]) {
+				if pr.AtLeast(0) {
+					lo = true
+				}
+				if pr.AtMost(255) {
+					hi = true
+				}
+			}
+		}
+		if !lo || !hi {
+			return false
+		}
+		n++
+	}
+	return n > 0
 }
